@@ -185,11 +185,14 @@ func runTLSClient(rt *Runtime, cs *connState, task int) {
 		}
 		cs.ClientEvents = append(cs.ClientEvents, Event{Seq: rt.K.Seq(), K: k, S: s})
 	}
+	stayOpen := false
 	defer func() {
 		if r := recover(); r != nil {
 			note("client-panic", fmt.Sprint(r))
 		}
-		end.Close()
+		if !stayOpen {
+			end.Close()
+		}
 		note("client-done", "")
 	}()
 	rt.K.Yield(task, "client.start")
@@ -245,7 +248,7 @@ func runTLSClient(rt *Runtime, cs *connState, task int) {
 				return
 			}
 		}
-		if si == len(cc.Steps)-1 {
+		if si == len(cc.Steps)-1 && !tc.StayOpen {
 			// like the inline client, the peer ends its input right after the
 			// last step (so a handler still reading COPY data sees the end of
 			// input at the same logical point as in the plaintext run)
@@ -263,6 +266,7 @@ func runTLSClient(rt *Runtime, cs *connState, task int) {
 			return
 		}
 	}
+	stayOpen = tc.StayOpen
 	// the server must have nothing more to say: close our side and drain
 	conn.CloseWrite() //nolint:errcheck
 	rest, _ := io.ReadAll(conn)
